@@ -284,9 +284,11 @@ void small_free_memory_list::insert(void* mem, std::size_t size) noexcept
 
 std::size_t small_free_memory_list::usable_size(std::size_t size) const noexcept
 {
+    // same chunk stride as insert(): full chunk plus the buffer that aligns the next chunk
     auto total_chunk_size = chunk_memory_offset + node_size_ * chunk_max_nodes;
-    auto no_chunks        = size / total_chunk_size;
-    auto remainder        = size % total_chunk_size;
+    auto chunk_stride     = total_chunk_size + align_offset(total_chunk_size, alignof(chunk));
+    auto no_chunks        = size / chunk_stride;
+    auto remainder        = size % chunk_stride;
 
     return no_chunks * chunk_max_nodes * node_size_
            + (remainder > chunk_memory_offset ? remainder - chunk_memory_offset : 0u);
